@@ -320,13 +320,16 @@ func (n *Nodes) redistribute(ctx context.Context) {
 			assignedNumberBackends[i] = 1
 		}
 	} else {
+		// spread the backends evenly, the first nodes take one more if there is a remainder
+		remainder := numberBackends % numberAvailableNodes
 		for idx := range allNodes {
 			if !nodeOnline[idx] {
 				continue
 			}
 			numberPerNode := numberBackends / numberAvailableNodes
-			if numberBackends%numberAvailableNodes != 0 {
+			if remainder > 0 {
 				numberPerNode++
+				remainder--
 			}
 			assignedNumberBackends[idx] = numberPerNode
 		}
